@@ -18,7 +18,7 @@ namespace Strengths
 open Gen
 
 /-- an edge of a graph space: `(i, j, surface, distance or distance²)` -/
-structure GEdge where
+structure CgEdge where
   i : Int
   j : Int
   surface : Rat
@@ -38,30 +38,30 @@ def gci (g : GridShape) (x y z : Int) : Int :=
   | .error _ => -1
 
 /-- the inner-face edges appended for one cell, in source order (+x, +y, +z) -/
-def faceEdges (g : GridShape) (sfc dst : Rat) (c : Nat × Nat × Nat) : List GEdge :=
+def faceEdges (g : GridShape) (sfc dst : Rat) (c : Nat × Nat × Nat) : List CgEdge :=
   let (x, y, z) := c
   (if (x : Int) < g.w - 1 then [⟨gci g x y z, gci g (x + 1) y z, sfc, dst⟩] else []) ++
   (if (y : Int) < g.h - 1 then [⟨gci g x y z, gci g x (y + 1) z, sfc, dst⟩] else []) ++
   (if (z : Int) < g.d - 1 then [⟨gci g x y z, gci g x y (z + 1), sfc, dst⟩] else [])
 
 /-- the wrap-around edges of the periodic axes, in source order (x, then y, then z) -/
-def periodicEdges (g : GridShape) (sfc dst : Rat) : List GEdge :=
+def periodicEdges (g : GridShape) (sfc dst : Rat) : List CgEdge :=
   (if g.px then (List.range g.d).flatMap fun (z : Nat) => (List.range g.h).map fun (y : Nat) =>
-      (⟨gci g (g.w - 1) y z, gci g 0 y z, sfc, dst⟩ : GEdge) else []) ++
+      (⟨gci g (g.w - 1) y z, gci g 0 y z, sfc, dst⟩ : CgEdge) else []) ++
   (if g.py then (List.range g.d).flatMap fun (z : Nat) => (List.range g.w).map fun (x : Nat) =>
-      (⟨gci g x (g.h - 1) z, gci g x 0 z, sfc, dst⟩ : GEdge) else []) ++
+      (⟨gci g x (g.h - 1) z, gci g x 0 z, sfc, dst⟩ : CgEdge) else []) ++
   (if g.pz then (List.range g.h).flatMap fun (y : Nat) => (List.range g.w).map fun (x : Nat) =>
-      (⟨gci g x y (g.d - 1), gci g x y 0, sfc, dst⟩ : GEdge) else [])
+      (⟨gci g x y (g.d - 1), gci g x y 0, sfc, dst⟩ : CgEdge) else [])
 
 /-- `grid_to_graph(grid)`: node volumes (`h³` each), node environments, edges (surface `h²`, distance `h`),
 all in the units of `cell_vol` -/
-structure Graph where
+structure CgGraph where
   vols : List Rat
   envs : List Int
-  edges : List GEdge
+  edges : List CgEdge
   deriving Repr, DecidableEq
 
-def gridToGraph (g : GridShape) (h : Rat) (envs : List Int) : Graph :=
+def cgGridToGraph (g : GridShape) (h : Rat) (envs : List Int) : CgGraph :=
   { vols := List.replicate g.size (h * h * h), envs := envs,
     edges := (gridCoords g).flatMap (faceEdges g (h * h) h) ++ periodicEdges g (h * h) h }
 
@@ -115,7 +115,7 @@ def scatterSet (n : Nat) (pairs : List (Int × Int)) : List Int :=
   pairs.foldl (fun acc p => if cgKeep p.1 then acc.set p.1.toNat p.2 else acc) (List.replicate n 0)
 
 /-- one step of the edge loop: skip self / dropped, merge into the first equal pair, else append -/
-def addEdge (im : List Int) (acc : List GEdge) (e : GEdge) : List GEdge :=
+def addEdge (im : List Int) (acc : List CgEdge) (e : CgEdge) : List CgEdge :=
   let i := im.getD e.i.toNat 0
   let j := im.getD e.j.toNat 0
   let c0 := min i j
@@ -132,7 +132,7 @@ def addEdge (im : List Int) (acc : List GEdge) (e : GEdge) : List GEdge :=
 structure CgSpace where
   vols : List Rat          -- node volumes, in the grid's units system `ug`
   envs : List Int
-  edges : List GEdge       -- surface in `uv²`, `dist` = distance² in `uv²`
+  edges : List CgEdge       -- surface in `uv²`, `dist` = distance² in `uv²`
   cx : List Rat            -- centroids (in `uv`), kept for the theorems
   cy : List Rat
   cz : List Rat
@@ -145,7 +145,7 @@ def sq (x : Rat) : Rat := x * x
 def coarsegrainGrid (g : GridShape) (h : Rat) (uv ug : Sys) (envs : List Int) (im : List (Option Int)) : Res CgSpace :=
   if g.px || g.py || g.pz then .error .badValue
   else
-    let space := gridToGraph g h envs
+    let space := cgGridToGraph g h envs
     match checkIndexMap im space.envs with
     | .error e => .error e
     | .ok () =>
